@@ -83,21 +83,23 @@ Record rep := mkRep {
   busy_est : bool;
   label_ok : bool;
   learner : bool;
-  pending : bool }.
-Definition set_attempts (v : nat) (r : rep) : rep := mkRep (v) (f_deadline r) (f_dnr r) (f_notleader r) (f_busy r) (f_suspect r) (stale r) (live r) (slow r) (stat_init r) (busy_est r) (label_ok r) (learner r) (pending r).
-Definition set_f_deadline (v : bool) (r : rep) : rep := mkRep (attempts r) (v) (f_dnr r) (f_notleader r) (f_busy r) (f_suspect r) (stale r) (live r) (slow r) (stat_init r) (busy_est r) (label_ok r) (learner r) (pending r).
-Definition set_f_dnr (v : bool) (r : rep) : rep := mkRep (attempts r) (f_deadline r) (v) (f_notleader r) (f_busy r) (f_suspect r) (stale r) (live r) (slow r) (stat_init r) (busy_est r) (label_ok r) (learner r) (pending r).
-Definition set_f_notleader (v : bool) (r : rep) : rep := mkRep (attempts r) (f_deadline r) (f_dnr r) (v) (f_busy r) (f_suspect r) (stale r) (live r) (slow r) (stat_init r) (busy_est r) (label_ok r) (learner r) (pending r).
-Definition set_f_busy (v : bool) (r : rep) : rep := mkRep (attempts r) (f_deadline r) (f_dnr r) (f_notleader r) (v) (f_suspect r) (stale r) (live r) (slow r) (stat_init r) (busy_est r) (label_ok r) (learner r) (pending r).
-Definition set_f_suspect (v : bool) (r : rep) : rep := mkRep (attempts r) (f_deadline r) (f_dnr r) (f_notleader r) (f_busy r) (v) (stale r) (live r) (slow r) (stat_init r) (busy_est r) (label_ok r) (learner r) (pending r).
-Definition set_stale (v : bool) (r : rep) : rep := mkRep (attempts r) (f_deadline r) (f_dnr r) (f_notleader r) (f_busy r) (f_suspect r) (v) (live r) (slow r) (stat_init r) (busy_est r) (label_ok r) (learner r) (pending r).
-Definition set_live (v : liveness) (r : rep) : rep := mkRep (attempts r) (f_deadline r) (f_dnr r) (f_notleader r) (f_busy r) (f_suspect r) (stale r) (v) (slow r) (stat_init r) (busy_est r) (label_ok r) (learner r) (pending r).
-Definition set_slow (v : bool) (r : rep) : rep := mkRep (attempts r) (f_deadline r) (f_dnr r) (f_notleader r) (f_busy r) (f_suspect r) (stale r) (live r) (v) (stat_init r) (busy_est r) (label_ok r) (learner r) (pending r).
-Definition set_stat_init (v : bool) (r : rep) : rep := mkRep (attempts r) (f_deadline r) (f_dnr r) (f_notleader r) (f_busy r) (f_suspect r) (stale r) (live r) (slow r) (v) (busy_est r) (label_ok r) (learner r) (pending r).
-Definition set_busy_est (v : bool) (r : rep) : rep := mkRep (attempts r) (f_deadline r) (f_dnr r) (f_notleader r) (f_busy r) (f_suspect r) (stale r) (live r) (slow r) (stat_init r) (v) (label_ok r) (learner r) (pending r).
-Definition set_label_ok (v : bool) (r : rep) : rep := mkRep (attempts r) (f_deadline r) (f_dnr r) (f_notleader r) (f_busy r) (f_suspect r) (stale r) (live r) (slow r) (stat_init r) (busy_est r) (v) (learner r) (pending r).
-Definition set_learner (v : bool) (r : rep) : rep := mkRep (attempts r) (f_deadline r) (f_dnr r) (f_notleader r) (f_busy r) (f_suspect r) (stale r) (live r) (slow r) (stat_init r) (busy_est r) (label_ok r) (v) (pending r).
-Definition set_pending (v : bool) (r : rep) : rep := mkRep (attempts r) (f_deadline r) (f_dnr r) (f_notleader r) (f_busy r) (f_suspect r) (stale r) (live r) (slow r) (stat_init r) (busy_est r) (label_ok r) (learner r) (v).
+  pending : bool;
+  rstale : bool }.
+Definition set_attempts (v : nat) (r : rep) : rep := mkRep (v) (f_deadline r) (f_dnr r) (f_notleader r) (f_busy r) (f_suspect r) (stale r) (live r) (slow r) (stat_init r) (busy_est r) (label_ok r) (learner r) (pending r) (rstale r).
+Definition set_f_deadline (v : bool) (r : rep) : rep := mkRep (attempts r) (v) (f_dnr r) (f_notleader r) (f_busy r) (f_suspect r) (stale r) (live r) (slow r) (stat_init r) (busy_est r) (label_ok r) (learner r) (pending r) (rstale r).
+Definition set_f_dnr (v : bool) (r : rep) : rep := mkRep (attempts r) (f_deadline r) (v) (f_notleader r) (f_busy r) (f_suspect r) (stale r) (live r) (slow r) (stat_init r) (busy_est r) (label_ok r) (learner r) (pending r) (rstale r).
+Definition set_f_notleader (v : bool) (r : rep) : rep := mkRep (attempts r) (f_deadline r) (f_dnr r) (v) (f_busy r) (f_suspect r) (stale r) (live r) (slow r) (stat_init r) (busy_est r) (label_ok r) (learner r) (pending r) (rstale r).
+Definition set_f_busy (v : bool) (r : rep) : rep := mkRep (attempts r) (f_deadline r) (f_dnr r) (f_notleader r) (v) (f_suspect r) (stale r) (live r) (slow r) (stat_init r) (busy_est r) (label_ok r) (learner r) (pending r) (rstale r).
+Definition set_f_suspect (v : bool) (r : rep) : rep := mkRep (attempts r) (f_deadline r) (f_dnr r) (f_notleader r) (f_busy r) (v) (stale r) (live r) (slow r) (stat_init r) (busy_est r) (label_ok r) (learner r) (pending r) (rstale r).
+Definition set_stale (v : bool) (r : rep) : rep := mkRep (attempts r) (f_deadline r) (f_dnr r) (f_notleader r) (f_busy r) (f_suspect r) (v) (live r) (slow r) (stat_init r) (busy_est r) (label_ok r) (learner r) (pending r) (rstale r).
+Definition set_live (v : liveness) (r : rep) : rep := mkRep (attempts r) (f_deadline r) (f_dnr r) (f_notleader r) (f_busy r) (f_suspect r) (stale r) (v) (slow r) (stat_init r) (busy_est r) (label_ok r) (learner r) (pending r) (rstale r).
+Definition set_slow (v : bool) (r : rep) : rep := mkRep (attempts r) (f_deadline r) (f_dnr r) (f_notleader r) (f_busy r) (f_suspect r) (stale r) (live r) (v) (stat_init r) (busy_est r) (label_ok r) (learner r) (pending r) (rstale r).
+Definition set_stat_init (v : bool) (r : rep) : rep := mkRep (attempts r) (f_deadline r) (f_dnr r) (f_notleader r) (f_busy r) (f_suspect r) (stale r) (live r) (slow r) (v) (busy_est r) (label_ok r) (learner r) (pending r) (rstale r).
+Definition set_busy_est (v : bool) (r : rep) : rep := mkRep (attempts r) (f_deadline r) (f_dnr r) (f_notleader r) (f_busy r) (f_suspect r) (stale r) (live r) (slow r) (stat_init r) (v) (label_ok r) (learner r) (pending r) (rstale r).
+Definition set_label_ok (v : bool) (r : rep) : rep := mkRep (attempts r) (f_deadline r) (f_dnr r) (f_notleader r) (f_busy r) (f_suspect r) (stale r) (live r) (slow r) (stat_init r) (busy_est r) (v) (learner r) (pending r) (rstale r).
+Definition set_learner (v : bool) (r : rep) : rep := mkRep (attempts r) (f_deadline r) (f_dnr r) (f_notleader r) (f_busy r) (f_suspect r) (stale r) (live r) (slow r) (stat_init r) (busy_est r) (label_ok r) (v) (pending r) (rstale r).
+Definition set_pending (v : bool) (r : rep) : rep := mkRep (attempts r) (f_deadline r) (f_dnr r) (f_notleader r) (f_busy r) (f_suspect r) (stale r) (live r) (slow r) (stat_init r) (busy_est r) (label_ok r) (learner r) (v) (rstale r).
+Definition set_rstale (v : bool) (r : rep) : rep := mkRep (attempts r) (f_deadline r) (f_dnr r) (f_notleader r) (f_busy r) (f_suspect r) (stale r) (live r) (slow r) (stat_init r) (busy_est r) (label_ok r) (learner r) (pending r) (v).
 
 Record state := mkState {
   reps : list rep;
@@ -163,7 +165,7 @@ Record cfg := mkCfg {
   c_async : bool (* the call goes through SendReqAsync: the first attempt is prepared by initForAsyncRequest, which does not
                     look at the kill flag; everything else is the same state machine (handleAsyncResponse, then next()) *) }.
 
-Definition dummy_rep : rep := mkRep max_replica_attempt false false false false false true Unreachable false false false false false false.
+Definition dummy_rep : rep := mkRep max_replica_attempt false false false false false true Unreachable false false false false false false true.
 Definition rep_at (s : state) (i : nat) : rep := nth i (reps s) dummy_rep.
 
 Fixpoint upd {A} (i : nat) (f : A -> A) (l : list A) : list A :=
@@ -259,7 +261,9 @@ Definition leader_next (s : state) : option nat :=
   if leader_candidate ld && negb (f_suspect ld) then Some (leader s) else None.
 
 (* baseReplicaSelector.invalidateReplicaStore *)
-Definition inval_store (r : rep) : rep := if stale r then r else set_slow true (set_stale true r).
+(* [stale]: the selector's snapshot replica.epoch differs from the store's epoch; [rstale]: the cached region's
+   storeEpochs entry differs from it (what the NEXT call's selector will start from) *)
+Definition inval_store (r : rep) : rep := if stale r then r else set_rstale true (set_slow true (set_stale true r)).
 
 (* ReplicaSelectLeaderWithProxyStrategy.isCandidate / next (proxyTiKVIdx = -1) *)
 Definition proxy_cand (lead i : nat) (r : rep) : bool :=
@@ -345,19 +349,20 @@ Definition next_mixed (c : cfg) (s : state) : option nat * state :=
   end.
 
 (* ---------------- handling the previous attempt's outcome ---------------- *)
-Inductive hres := HRetry (s : state) (evs : list event) | HDone (r : result) (evs : list event).
+(* HDone / SDone carry the state the call ends in (only the cached-region / store part of it matters: [end_cache]) *)
+Inductive hres := HRetry (s : state) (evs : list event) | HDone (sd : state) (r : result) (evs : list event).
 
 Definition with_backoff (c : cfg) (k : bo_kind) (s : state) (on_fail : result) : hres :=
   match backoff c k s with
   | BoOk s' e => HRetry s' [e]
-  | BoRefused => HDone on_fail []
-  | BoKilled e => HDone on_fail [e]
+  | BoRefused => HDone s on_fail []
+  | BoKilled e => HDone s on_fail [e]
   end.
 
 (* RegionRequestSender.onSendFail + replicaSelector.onSendFailure *)
 Definition on_send_fail (c : cfg) (s : state) (t : nat) (deadline : bool) (l : liveness) : hres :=
   (* sendReqState.send: an RPC error while the caller's context is cancelled ends the call at once *)
-  if dead s then HDone RError [] else
+  if dead s then HDone s RError [] else
   if deadline && c_short_to c && c_read c then HRetry (upd_rep t (set_f_deadline true) s) []
   else
     let a := match proxy s with Some p => p | None => t end in   (* the accessed store: the proxy if there is one *)
@@ -378,12 +383,14 @@ Definition on_not_leader_hint (lim : option nat) (s : state) (t k : nat) : hres 
     (* replica.onUpdateLeader(maxRearm): [rearmed_v] = the per-replica counters replica.rearmed; lim = Some maxRearm *)
     let was_exhausted := exhausted (rep_at s1 k) max_replica_attempt &&
                          match lim with Some m => nth k (rearmed_v s1) m <? m | None => true end in
-    let s2 := upd_rep k (fun r => set_f_suspect false (set_f_notleader false
+    (* Region.switchWorkLeaderToPeer refreshes the region's epoch snapshot of the new leader's store (when the leader changes) *)
+    let s2 := upd_rep k (fun r => (if k =? leader s1 then r else set_rstale false r))
+             (upd_rep k (fun r => set_f_suspect false (set_f_notleader false
                                    (if was_exhausted then set_attempts (max_replica_attempt - 1) r else r)))
                 (match lim with
                  | Some _ => if was_exhausted then set_rearmed_v (upd k S (rearmed_v s1)) s1 else s1
                  | None => s1
-                 end) in
+                 end)) in
     let s3 := set_leader k s2 in
     let s4 := if leader_candidate (rep_at s3 k) then set_rt RTLeader s3 else s3 in
     HRetry s4 (if was_exhausted then [ERearm k] else []).
@@ -415,17 +422,17 @@ Definition on_busy (c : cfg) (s : state) (t : nat) (wait : bool) : hres :=
 (* RegionRequestSender.onRegionError / onSendFail, for the outcome o of attempt number i sent to replica t *)
 Definition handle (fixed : bool) (c : cfg) (s : state) (t : nat) (o : outcome) (i : nat) : hres :=
   match o with
-  | OSuccess => HDone (RSuccess i) []
+  | OSuccess => HDone s (RSuccess i) []
   | ORpcErr l => on_send_fail c s t false l
   | ODeadline l => on_send_fail c s t true l
   | ONotLeader => with_backoff c BoRegionScheduling (upd_rep t (set_f_notleader true) s) RError
   | ONotLeaderHint k => on_not_leader_hint (if fixed then Some (length (c_reps c) - 1) else None) s t k
-  | OEpochNoRegions | OEpochNewer | OStoreNotMatch => HDone (RRegionErr i) []
+  | OEpochNoRegions | OEpochNewer | OStoreNotMatch => HDone (set_valid false s) (RRegionErr i) []
   | OEpochBehind => with_backoff c BoRegionMiss s RError
   | ORegionNotFound =>
       if negb (exhausted (rep_at s (leader s)) 1) then
         HRetry (set_valid false (set_inv_retry true (set_rt RTLeader (set_q_rt RTLeader (set_q_rr false s))))) []
-      else HDone (RRegionErr i) []
+      else HDone (set_valid false s) (RRegionErr i) []
   | OBusy w => on_busy c s t w
   | OBusyDeadline =>
       if c_short_to c && c_read c then HRetry (upd_rep t (set_f_deadline true) s) [] else on_busy c s t false
@@ -436,7 +443,7 @@ Definition handle (fixed : bool) (c : cfg) (s : state) (t : nat) (o : outcome) (
   end.
 
 (* ---------------- choosing the next replica and sending ---------------- *)
-Inductive sres := SSent (s : state) (t : nat) (evs : list event) | SDone (r : result) (evs : list event).
+Inductive sres := SSent (s : state) (t : nat) (evs : list event) | SDone (sd : state) (r : result) (evs : list event).
 
 Definition any_pending (s : state) : bool := existsb pending (reps s).
 
@@ -444,11 +451,11 @@ Definition any_pending (s : state) : bool := existsb pending (reps s).
 Definition no_candidate (c : cfg) (s : state) : sres :=
   if any_pending s then
     match backoff c BoBusy s with
-    | BoOk _ e => SDone RPseudo [e]
-    | BoRefused => SDone RError []
-    | BoKilled e => SDone RError [e]
+    | BoOk _ e => SDone s RPseudo [e]
+    | BoRefused => SDone s RError []
+    | BoKilled e => SDone s RError [e]
     end
-  else SDone RPseudo [].
+  else SDone s RPseudo [].
 
 Definition sat3 (n : nat) : nat := if 3 <=? n then 3 else n.   (* selector.attempts is only compared with 1 and 2 *)
 
@@ -474,8 +481,8 @@ Definition sel_phase (c : cfg) (s : state) : sres :=
             if pending (rep_at s3 t) then
               match backoff c BoBusy (upd_rep t (set_pending false) s3) with
               | BoOk s4 e => SSent s4 t [e; EProxy p]
-              | BoRefused => SDone RError []
-              | BoKilled e => SDone RError [e]
+              | BoRefused => SDone s3 RError []
+              | BoKilled e => SDone s3 RError [e]
               end
             else SSent s3 t [EProxy p]
       | PxLeaderOnly =>
@@ -489,8 +496,8 @@ Definition sel_phase (c : cfg) (s : state) : sres :=
             if pending (rep_at s3 t) then
               match backoff c BoBusy (upd_rep t (set_pending false) s3) with
               | BoOk s4 e => SSent s4 t [e]
-              | BoRefused => SDone RError []
-              | BoKilled e => SDone RError [e]
+              | BoRefused => SDone s3 RError []
+              | BoKilled e => SDone s3 RError [e]
               end
             else SSent s3 t []
       end
@@ -509,13 +516,13 @@ Definition raise_att (c : cfg) (i : nat) (s : state) : state :=
 (* the retry loop of SendReqCtx: [prev] is the replica and the outcome of attempt i-1 *)
 Fixpoint loop_gen (fixed : bool) (c : cfg) (script : list outcome) (s : state) (prev : option (nat * outcome)) (i : nat) : list event * result :=
   match (if c_interruptible c && killed s && negb (c_async c && (i =? 0))
-         then HDone RError []   (* next(): bo.CheckKilled() for interruptible requests *)
+         then HDone s RError []   (* next(): bo.CheckKilled() for interruptible requests *)
          else match prev with None => HRetry s [] | Some (t, o) => handle fixed c s t o (pred i) end) with
-  | HDone r evs => (evs, r)
+  | HDone _ r evs => (evs, r)
   | HRetry s1 evs1 =>
       let s1' := if 0 <? i then set_q_retry true s1 else s1 in
       match sel_phase c s1' with
-      | SDone r evs2 => (evs1 ++ evs2, r)
+      | SDone _ r evs2 => (evs1 ++ evs2, r)
       | SSent s2 t evs2 =>
           let ev := EAtt t (q_rr s2) (q_stale s2) (q_retry s2) in
           (* a client handed a cancelled context answers with the context error whatever the store would say;
@@ -555,4 +562,4 @@ Definition is_bo (e : event) : bool := match e with EBo _ _ => true | _ => false
 Definition n_attempts (evs : list event) : nat := length (filter is_att evs).
 Definition n_rearms (evs : list event) : nat := length (filter is_rearm evs).
 Definition n_backoffs (evs : list event) : nat := length (filter is_bo evs).
-Definition fresh_rep (lv : liveness) (sl lbl lrn : bool) : rep := mkRep 0 false false false false false false lv sl false false lbl lrn false.
+Definition fresh_rep (lv : liveness) (sl lbl lrn : bool) : rep := mkRep 0 false false false false false false lv sl false false lbl lrn false false.
